@@ -1,6 +1,780 @@
-//! C17 monitor (not built yet)
-use vcore::{Args, Report};
+//! C17 — closing or failing a connection ends every pending operation.
+//!
+//! A real client and server get a set of application operations pending on both sides (window
+//! blocked write / flush / shutdown, read, limit-blocked open_bi / open_uni, accept_bi /
+//! accept_uni, datagram recv, handshaked(), terminated()).  At a chosen point of the connection's
+//! life one of {local close, peer close, both close, protocol error injected into the peer's
+//! packets, permanent black-out, idleness} happens.  Oracle: every operation pending at that
+//! moment and every operation started afterwards resolves with the connection's terminating
+//! error within a virtual-time bound; `terminated()` gives every caller the same error; the
+//! qlog state sequence only moves forward; no STREAM / DATAGRAM frame is sent after closing;
+//! idle termination happens after the negotiated idle timeout and not before.
+use std::{
+    sync::{Arc, Mutex},
+    time::Duration,
+};
 
-pub fn run(_args: &Args, rep: &mut Report) {
-    rep.inconclusive("monitor not built yet");
+use dquic::prelude::*;
+use qevent::VantagePointType;
+use serde_json::{Value, json};
+use tokio::io::{AsyncReadExt, AsyncWriteExt};
+use vcore::{Args, Report, Rng};
+
+use crate::{
+    scenario::ParamCfg,
+    sim::FaultProfile,
+    world::{LogMode, World, WorldCfg, client_addr, run_paused, server_addr},
+};
+
+#[derive(Clone, Debug)]
+pub struct Case {
+    pub seed: u64,
+    pub trigger: String, // local-close | peer-close | both-close | proto-error | blackout | idle
+    pub phase: String,   // pre | mid | post
+    pub latency_ms: u64,
+    pub idle_client_ms: u64,
+    pub idle_server_ms: u64,
+}
+
+impl Case {
+    fn to_json(&self) -> Value {
+        json!({"kind": "c17", "seed": self.seed, "trigger": self.trigger, "phase": self.phase, "latency_ms": self.latency_ms,
+               "idle_client_ms": self.idle_client_ms, "idle_server_ms": self.idle_server_ms})
+    }
+    fn from_json(v: &Value) -> Case {
+        Case {
+            seed: v["seed"].as_u64().unwrap_or(1),
+            trigger: v["trigger"].as_str().unwrap_or("local-close").into(),
+            phase: v["phase"].as_str().unwrap_or("post").into(),
+            latency_ms: v["latency_ms"].as_u64().unwrap_or(10),
+            idle_client_ms: v["idle_client_ms"].as_u64().unwrap_or(30_000),
+            idle_server_ms: v["idle_server_ms"].as_u64().unwrap_or(30_000),
+        }
+    }
+}
+
+#[derive(Clone, Debug)]
+struct OpRec {
+    name: String,
+    started_ms: u64,
+    resolved_ms: Option<u64>,
+    ok: Option<bool>,
+    kind: Option<String>,
+    text: String,
+    /// started after the trigger
+    later: bool,
+}
+
+type Ops = Arc<Mutex<Vec<OpRec>>>;
+
+#[derive(Clone)]
+struct Ctx {
+    ops: Ops,
+    net: crate::sim::SimNet,
+}
+
+enum R {
+    Ok(String),
+    Err(Option<String>, String),
+}
+
+fn from_conn_err(e: &Error) -> R {
+    R::Err(Some(format!("{:?}", e.kind())), format!("{e}"))
+}
+
+fn from_io_err(e: &std::io::Error) -> R {
+    let kind = e.get_ref().and_then(|i| i.downcast_ref::<StreamError>()).and_then(|s| match s {
+        StreamError::Connection(c) => Some(format!("{:?}", c.kind())),
+        _ => None,
+    });
+    // datagram ops wrap the connection error directly
+    let kind = kind.or_else(|| e.get_ref().and_then(|i| i.downcast_ref::<Error>()).map(|c| format!("{:?}", c.kind())));
+    R::Err(kind, format!("{e}"))
+}
+
+impl Ctx {
+    fn now(&self) -> u64 {
+        self.net.now().as_millis() as u64
+    }
+    /// run `fut` as a tracked operation
+    fn track<F>(&self, name: &str, later: bool, fut: F)
+    where
+        F: Future<Output = R> + Send + 'static,
+    {
+        let idx = {
+            let mut g = self.ops.lock().unwrap();
+            g.push(OpRec { name: name.to_string(), started_ms: self.now(), resolved_ms: None, ok: None, kind: None, text: String::new(), later });
+            g.len() - 1
+        };
+        let me = self.clone();
+        tokio::spawn(async move {
+            let r = fut.await;
+            let now = me.now();
+            let mut g = me.ops.lock().unwrap();
+            let o = &mut g[idx];
+            o.resolved_ms = Some(now);
+            match r {
+                R::Ok(t) => {
+                    o.ok = Some(true);
+                    o.text = t;
+                }
+                R::Err(k, t) => {
+                    o.ok = Some(false);
+                    o.kind = k;
+                    o.text = t;
+                }
+            }
+        });
+    }
+}
+
+/// keeps stream halves alive so dropping them does not reset streams
+#[derive(Default)]
+struct Parked {
+    readers: Vec<StreamReader>,
+    writers: Vec<StreamWriter>,
+}
+
+fn client_ops(ctx: &Ctx, conn: Arc<Connection>, side: &'static str, parked: Arc<Mutex<Parked>>, later: bool) {
+    // stream A: window-blocked write (second write after the window is full)
+    {
+        let c = conn.clone();
+        let p = parked.clone();
+        ctx.track(&format!("{side}.write"), later, async move {
+            match c.open_uni_stream().await {
+                Ok(Some((_sid, mut w))) => {
+                    let buf = vec![0x5au8; 8000];
+                    let mut r = w.write_all(&buf).await;
+                    while r.is_ok() {
+                        r = w.write_all(&buf).await;
+                    }
+                    let e = r.unwrap_err();
+                    p.lock().unwrap().writers.push(w);
+                    from_io_err(&e)
+                }
+                Ok(None) => R::Ok("stream ids exhausted".into()),
+                Err(e) => from_conn_err(&e),
+            }
+        });
+    }
+    // stream: flush with data beyond the window
+    {
+        let c = conn.clone();
+        let p = parked.clone();
+        ctx.track(&format!("{side}.flush"), later, async move {
+            match c.open_uni_stream().await {
+                Ok(Some((_sid, mut w))) => {
+                    if let Err(e) = w.write_all(&vec![0x11u8; 6000]).await {
+                        return from_io_err(&e);
+                    }
+                    let r = w.flush().await;
+                    p.lock().unwrap().writers.push(w);
+                    match r {
+                        Ok(()) => R::Ok("flushed".into()),
+                        Err(e) => from_io_err(&e),
+                    }
+                }
+                Ok(None) => R::Ok("stream ids exhausted".into()),
+                Err(e) => from_conn_err(&e),
+            }
+        });
+    }
+    // stream: shutdown with data beyond the window
+    {
+        let c = conn.clone();
+        let p = parked.clone();
+        ctx.track(&format!("{side}.shutdown"), later, async move {
+            match c.open_uni_stream().await {
+                Ok(Some((_sid, mut w))) => {
+                    if let Err(e) = w.write_all(&vec![0x22u8; 6000]).await {
+                        return from_io_err(&e);
+                    }
+                    let r = w.shutdown().await;
+                    p.lock().unwrap().writers.push(w);
+                    match r {
+                        Ok(()) => R::Ok("shut down".into()),
+                        Err(e) => from_io_err(&e),
+                    }
+                }
+                Ok(None) => R::Ok("stream ids exhausted".into()),
+                Err(e) => from_conn_err(&e),
+            }
+        });
+    }
+    // bidi stream: write a little, then read (the peer never answers)
+    {
+        let c = conn.clone();
+        let p = parked.clone();
+        ctx.track(&format!("{side}.read"), later, async move {
+            match c.open_bi_stream().await {
+                Ok(Some((_sid, (mut r, mut w)))) => {
+                    if let Err(e) = w.write_all(b"0123456789").await {
+                        return from_io_err(&e);
+                    }
+                    let mut buf = [0u8; 64];
+                    let res = r.read(&mut buf).await;
+                    let mut g = p.lock().unwrap();
+                    g.writers.push(w);
+                    g.readers.push(r);
+                    match res {
+                        Ok(n) => R::Ok(format!("read {n} bytes")),
+                        Err(e) => from_io_err(&e),
+                    }
+                }
+                Ok(None) => R::Ok("stream ids exhausted".into()),
+                Err(e) => from_conn_err(&e),
+            }
+        });
+    }
+    // limit-blocked opens: uni limit is 3 and three are in use above; bidi limit is 2
+    {
+        let c = conn.clone();
+        let p = parked.clone();
+        ctx.track(&format!("{side}.open_uni"), later, async move {
+            // let the three streams above take their ids first
+            tokio::time::sleep(Duration::from_millis(1)).await;
+            match c.open_uni_stream().await {
+                Ok(Some((sid, w))) => {
+                    p.lock().unwrap().writers.push(w);
+                    R::Ok(format!("opened {sid:?}"))
+                }
+                Ok(None) => R::Ok("stream ids exhausted".into()),
+                Err(e) => from_conn_err(&e),
+            }
+        });
+    }
+    {
+        let c = conn.clone();
+        let p = parked.clone();
+        ctx.track(&format!("{side}.open_bi"), later, async move {
+            tokio::time::sleep(Duration::from_millis(1)).await;
+            // one bidi id is used by the read op; take the second, the third blocks
+            let mut last = String::new();
+            for _ in 0..2 {
+                match c.open_bi_stream().await {
+                    Ok(Some((sid, (r, w)))) => {
+                        let mut g = p.lock().unwrap();
+                        g.readers.push(r);
+                        g.writers.push(w);
+                        last = format!("opened {sid:?}");
+                    }
+                    Ok(None) => return R::Ok("stream ids exhausted".into()),
+                    Err(e) => return from_conn_err(&e),
+                }
+            }
+            R::Ok(last)
+        });
+    }
+    {
+        let c = conn.clone();
+        ctx.track(&format!("{side}.dgram_recv"), later, async move {
+            match c.datagram_reader() {
+                Ok(Ok(mut rd)) => match rd.recv().await {
+                    Ok(d) => R::Ok(format!("datagram of {} bytes", d.len())),
+                    Err(e) => from_io_err(&e),
+                },
+                Ok(Err(e)) => from_io_err(&e),
+                Err(e) => from_conn_err(&e),
+            }
+        });
+    }
+    {
+        let c = conn.clone();
+        ctx.track(&format!("{side}.handshaked"), later, async move {
+            match c.handshaked().await {
+                Ok(()) => R::Ok("handshaked".into()),
+                Err(e) => from_conn_err(&e),
+            }
+        });
+    }
+    for k in 0..2 {
+        let c = conn.clone();
+        ctx.track(&format!("{side}.terminated{k}"), later, async move {
+            if k == 1 {
+                tokio::time::sleep(Duration::from_millis(37)).await;
+            }
+            let e = c.terminated().await;
+            R::Err(Some(format!("{:?}", e.kind())), format!("{e:?}"))
+        });
+    }
+}
+
+/// accept loops that park what they accept (never read): the last accept of each kind stays pending
+fn accept_ops(ctx: &Ctx, conn: Arc<Connection>, side: &'static str, parked: Arc<Mutex<Parked>>, later: bool) {
+    {
+        let c = conn.clone();
+        let p = parked.clone();
+        ctx.track(&format!("{side}.accept_bi"), later, async move {
+            loop {
+                match c.accept_bi_stream().await {
+                    Ok((_sid, (r, w))) => {
+                        let mut g = p.lock().unwrap();
+                        g.readers.push(r);
+                        g.writers.push(w);
+                    }
+                    Err(e) => return from_conn_err(&e),
+                }
+            }
+        });
+    }
+    {
+        let c = conn.clone();
+        let p = parked.clone();
+        ctx.track(&format!("{side}.accept_uni"), later, async move {
+            loop {
+                match c.accept_uni_stream().await {
+                    Ok((_sid, r)) => p.lock().unwrap().readers.push(r),
+                    Err(e) => return from_conn_err(&e),
+                }
+            }
+        });
+    }
+}
+
+/// operations started after the termination: must fail at once
+fn later_ops(ctx: &Ctx, conn: Arc<Connection>, side: &'static str, parked: Arc<Mutex<Parked>>) {
+    {
+        let c = conn.clone();
+        ctx.track(&format!("{side}.later.open_bi"), true, async move {
+            match c.open_bi_stream().await {
+                Ok(Some(_)) => R::Ok("opened a stream after termination".into()),
+                Ok(None) => R::Ok("stream ids exhausted".into()),
+                Err(e) => from_conn_err(&e),
+            }
+        });
+    }
+    {
+        let c = conn.clone();
+        ctx.track(&format!("{side}.later.open_uni"), true, async move {
+            match c.open_uni_stream().await {
+                Ok(Some(_)) => R::Ok("opened a stream after termination".into()),
+                Ok(None) => R::Ok("stream ids exhausted".into()),
+                Err(e) => from_conn_err(&e),
+            }
+        });
+    }
+    {
+        let c = conn.clone();
+        ctx.track(&format!("{side}.later.accept_bi"), true, async move {
+            match c.accept_bi_stream().await {
+                Ok(_) => R::Ok("accepted a stream after termination".into()),
+                Err(e) => from_conn_err(&e),
+            }
+        });
+    }
+    {
+        let c = conn.clone();
+        ctx.track(&format!("{side}.later.dgram_send"), true, async move {
+            match c.datagram_writer().await {
+                Ok(Ok(w)) => match w.send(b"too late") {
+                    Ok(()) => R::Ok("datagram accepted after termination".into()),
+                    Err(e) => from_io_err(&e),
+                },
+                Ok(Err(e)) => from_io_err(&e),
+                Err(e) => from_conn_err(&e),
+            }
+        });
+    }
+    // write on a stream that existed before
+    let w = parked.lock().unwrap().writers.pop();
+    if let Some(mut w) = w {
+        ctx.track(&format!("{side}.later.write"), true, async move {
+            match AsyncWriteExt::write(&mut w, b"data after termination").await {
+                Ok(n) => R::Ok(format!("write accepted {n} bytes after termination")),
+                Err(e) => from_io_err(&e),
+            }
+        });
+    }
+    let r = parked.lock().unwrap().readers.pop();
+    if let Some(mut r) = r {
+        ctx.track(&format!("{side}.later.read"), true, async move {
+            let mut b = [0u8; 16];
+            match r.read(&mut b).await {
+                Ok(n) => R::Ok(format!("read returned Ok({n}) after termination")),
+                Err(e) => from_io_err(&e),
+            }
+        });
+    }
+}
+
+pub struct Run {
+    ops: Vec<OpRec>,
+    trigger_ms: u64,
+    eval_ms: u64,
+    events: Vec<(VantagePointType, qevent::Event)>,
+    panics: Vec<vcore::panics::PanicRecord>,
+    completed: bool,
+    last_c2s_before: u64,
+    last_s2c_before: u64,
+}
+
+fn run_case(case: &Case) -> Run {
+    let pan0 = vcore::panics::count();
+    let ops: Ops = Arc::new(Mutex::new(vec![]));
+    let store: Arc<Mutex<Option<Arc<crate::world::EventStore>>>> = Arc::new(Mutex::new(None));
+    let out: Arc<Mutex<(u64, u64, u64, u64)>> = Arc::new(Mutex::new((0, 0, 0, 0)));
+    let case2 = case.clone();
+    let ops2 = ops.clone();
+    let store2 = store.clone();
+    let out2 = out.clone();
+    let min_idle = [case.idle_client_ms, case.idle_server_ms].into_iter().filter(|x| *x > 0).min().unwrap_or(0);
+    let slow = matches!(case.trigger.as_str(), "blackout" | "idle");
+    let bound_ms: u64 = if slow { min_idle + 4000 } else { 2500 };
+    let deadline = Duration::from_millis(5_000 + bound_ms + 2_000 + if slow && min_idle == 0 { 60_000 } else { 0 });
+    let done = run_paused(deadline, async move {
+        let case = case2;
+        let mut p = ParamCfg::default();
+        p.streams_bidi = 2;
+        p.streams_uni = 3;
+        p.stream_data = 4096;
+        p.max_data = 1 << 20;
+        p.datagram = 1200;
+        p.idle_client_ms = case.idle_client_ms;
+        p.idle_server_ms = case.idle_server_ms;
+        let cfg = WorldCfg { client_params: p.client(), server_params: p.server(), log: LogMode::Capture, with_qlog: true, mtu: 1500 };
+        let w = World::new(case.seed, cfg).await;
+        *store2.lock().unwrap() = Some(w.events.clone());
+        let lat = Duration::from_millis(case.latency_ms);
+        w.net.set_profile_towards(server_addr(), FaultProfile { latency: lat, ..Default::default() });
+        w.net.set_profile_towards(client_addr(), FaultProfile { latency: lat, ..Default::default() });
+        let ctx = Ctx { ops: ops2, net: w.net.clone() };
+        let sparked = Arc::new(Mutex::new(Parked::default()));
+        let cparked = Arc::new(Mutex::new(Parked::default()));
+        // server side
+        let sconn: Arc<Mutex<Option<Arc<Connection>>>> = Arc::new(Mutex::new(None));
+        {
+            let listeners = w.listeners.clone();
+            let ctx = ctx.clone();
+            let sconn = sconn.clone();
+            let sparked = sparked.clone();
+            tokio::spawn(async move {
+                while let Ok((conn, _n, _p, _l)) = listeners.accept().await {
+                    let conn = Arc::new(conn);
+                    *sconn.lock().unwrap() = Some(conn.clone());
+                    accept_ops(&ctx, conn.clone(), "S", sparked.clone(), false);
+                    client_ops(&ctx, conn.clone(), "S", sparked.clone(), false);
+                }
+            });
+        }
+        let conn = Arc::new(w.connect().await);
+        accept_ops(&ctx, conn.clone(), "C", cparked.clone(), false);
+        client_ops(&ctx, conn.clone(), "C", cparked.clone(), false);
+        // wait for the trigger point
+        match case.phase.as_str() {
+            "pre" => {}
+            "mid" => tokio::time::sleep(lat + lat / 2).await,
+            _ => tokio::time::sleep(lat * 12 + Duration::from_millis(400)).await,
+        }
+        let t = ctx.now();
+        {
+            let mut g = out2.lock().unwrap();
+            g.0 = t;
+            g.2 = w.net.with(|n| n.delivered.iter().filter(|e| e.dst == server_addr()).map(|e| e.t.as_millis() as u64).max().unwrap_or(0));
+            g.3 = w.net.with(|n| n.delivered.iter().filter(|e| e.dst == client_addr()).map(|e| e.t.as_millis() as u64).max().unwrap_or(0));
+        }
+        let mut s = sconn.lock().unwrap().clone();
+        if s.is_none() && matches!(case.trigger.as_str(), "peer-close" | "both-close") {
+            // the peer can only close a connection it knows about: wait until the server has accepted it
+            for _ in 0..200 {
+                tokio::time::sleep(Duration::from_millis(5)).await;
+                s = sconn.lock().unwrap().clone();
+                if s.is_some() {
+                    break;
+                }
+            }
+            out2.lock().unwrap().0 = ctx.now();
+        }
+        match case.trigger.as_str() {
+            "local-close" => {
+                let _ = conn.close("bye", 7);
+            }
+            "peer-close" => {
+                if let Some(s) = &s {
+                    let _ = s.close("bye from server", 9);
+                }
+            }
+            "both-close" => {
+                let _ = conn.close("bye", 7);
+                if let Some(s) = &s {
+                    let _ = s.close("bye from server", 9);
+                }
+            }
+            "proto-error" => {
+                // MAX_STREAMS(bidi) = 2^61: FRAME_ENCODING_ERROR at the client
+                qconnection::verif::inject_raw_frames(Role::Server, vec![0x12, 0xe0, 0, 0, 0, 0, 0, 0, 0]);
+                // wake the server's sender with a byte of application data
+                let wr = sparked.lock().unwrap().writers.pop();
+                if let Some(mut wr) = wr {
+                    let _ = wr.write_all(b"x").await;
+                    sparked.lock().unwrap().writers.push(wr);
+                }
+            }
+            "blackout" => {
+                let dead = Duration::from_millis(t);
+                w.net.set_profile_towards(server_addr(), FaultProfile { latency: lat, dead_from: Some(dead), ..Default::default() });
+                w.net.set_profile_towards(client_addr(), FaultProfile { latency: lat, dead_from: Some(dead), ..Default::default() });
+            }
+            _ => {} // idle: nothing happens
+        }
+        tokio::time::sleep(Duration::from_millis(bound_ms)).await;
+        out2.lock().unwrap().1 = ctx.now();
+        // operations started after the termination
+        later_ops(&ctx, conn.clone(), "C", cparked.clone());
+        if let Some(s) = &s {
+            later_ops(&ctx, s.clone(), "S", sparked.clone());
+        }
+        tokio::time::sleep(Duration::from_millis(300)).await;
+        w.listeners.shutdown();
+    });
+    // leftovers of the injection queue must not leak into the next scenario
+    qconnection::verif::clear_injections();
+    let events = store.lock().unwrap().as_ref().map(|s| std::mem::take(&mut *s.events.lock().unwrap())).unwrap_or_default();
+    let o = *out.lock().unwrap();
+    Run {
+        ops: ops.lock().unwrap().clone(),
+        trigger_ms: o.0,
+        eval_ms: o.1,
+        events,
+        panics: vcore::panics::since(pan0),
+        completed: done.is_some(),
+        last_c2s_before: o.2,
+        last_s2c_before: o.3,
+    }
+}
+
+fn state_rank(s: &str) -> Option<u32> {
+    // the life-cycle the property names; other (granular) states are not ordered by it
+    match s {
+        "attempted" => Some(1),
+        "handshake_confirmed" => Some(2),
+        "closing" => Some(3),
+        "draining" => Some(4),
+        "closed" => Some(5),
+        _ => None,
+    }
+}
+
+fn judge(rep: &mut Report, case: &Case, run: &Run) {
+    let tag = format!("{}:{}", case.trigger, case.phase);
+    let rj = case.to_json();
+    for p in &run.panics {
+        let loc = vcore::panics::short_location(&p.location);
+        rep.violation(format!("C17.panic:{loc}"), format!("panic: {} at {loc} [{tag}]", p.message), rj.clone());
+    }
+    if !run.completed {
+        rep.inconclusive(format!("scenario {tag} did not reach its evaluation point before the virtual deadline"));
+        return;
+    }
+    let both_zero = case.idle_client_ms == 0 && case.idle_server_ms == 0;
+    let min_idle = [case.idle_client_ms, case.idle_server_ms].into_iter().filter(|x| *x > 0).min().unwrap_or(0);
+    let expect_termination = !(case.trigger == "idle" && both_zero);
+    // a black-out with both idle timeouts disabled may or may not be noticed (only if something is in flight)
+    let undetermined = case.trigger == "blackout" && both_zero;
+    // per side terminating error kind as told by terminated()
+    let term = |side: &str| run.ops.iter().find(|o| o.name == format!("{side}.terminated0")).cloned();
+    for side in ["C", "S"] {
+        let Some(t0) = term(side) else { continue };
+        if undetermined {
+            rep.count("blackout_with_idle_disabled_not_judged");
+            continue;
+        }
+        let t1 = run.ops.iter().find(|o| o.name == format!("{side}.terminated1")).cloned();
+        if !expect_termination {
+            if t0.resolved_ms.is_some() {
+                rep.violation(
+                    format!("C17.idle.terminated-with-timeout-disabled:{side}"),
+                    format!("{side} terminated at {:?} ms although both endpoints disabled the idle timeout and nothing failed: {}", t0.resolved_ms, t0.text),
+                    rj.clone(),
+                );
+            } else {
+                rep.count("idle_disabled_connection_stayed_up");
+            }
+            continue;
+        }
+        match (&t0.resolved_ms, t1.as_ref().and_then(|t| t.resolved_ms)) {
+            (Some(_), Some(_)) => {
+                rep.count("terminated_observed");
+                if t1.as_ref().map(|t| &t.text) != Some(&t0.text) {
+                    rep.violation(format!("C17.terminated.differs:{side}"), format!("two callers of terminated() on {side} got different errors: {} vs {}", t0.text, t1.unwrap().text), rj.clone());
+                }
+            }
+            _ => {
+                // the connection never terminated on this side: one finding; the operations still pending
+                // on it are consequences, not separate findings
+                let pending = run.ops.iter().filter(|o| o.name.starts_with(side) && o.resolved_ms.is_none()).count();
+                rep.violation(
+                    format!("C17.not-terminated:{tag}"),
+                    format!("{side}: connection not terminated {} ms after {tag} (trigger at {} ms); {pending} operations still pending on this side", run.eval_ms - run.trigger_ms, run.trigger_ms),
+                    rj.clone(),
+                );
+                continue;
+            }
+        }
+        // expected kind for explicit closes / injected error
+        let want = match case.trigger.as_str() {
+            "local-close" | "peer-close" | "both-close" => Some("Application"),
+            "proto-error" => Some("FrameEncoding"),
+            _ => None,
+        };
+        if let (Some(want), Some(k)) = (want, &t0.kind) {
+            if k != want {
+                rep.violation(format!("C17.terminated.kind:{side}:{}", case.trigger), format!("{side} terminated with {k}, the trigger {tag} prescribes {want}: {}", t0.text), rj.clone());
+            }
+        }
+        // idle clause: not before the timeout, and not much later
+        // (a lost path may also be given up earlier for another reason, e.g. too many probe timeouts)
+        if case.trigger == "idle" || (case.trigger == "blackout" && t0.text.contains("idle")) {
+            if let Some(r) = t0.resolved_ms {
+                let last_rx = if side == "C" { run.last_s2c_before } else { run.last_c2s_before };
+                // the idle period cannot have started before the last packet this side received
+                if r + 50 < last_rx + min_idle {
+                    rep.violation(
+                        format!("C17.idle.too-early:{side}:{}", case.trigger),
+                        format!("{side} gave up at {r} ms: only {} ms after its last received packet ({last_rx} ms), negotiated idle timeout {min_idle} ms", r - last_rx.min(r)),
+                        rj.clone(),
+                    );
+                } else {
+                    rep.count("idle_not_before_checks");
+                }
+            }
+        }
+        // every op of this side
+        for o in run.ops.iter().filter(|o| o.name.starts_with(side) && !o.name.contains("terminated")) {
+            let pending_at_trigger = !o.later && o.resolved_ms.is_none_or(|r| r >= run.trigger_ms);
+            if !o.later && !pending_at_trigger {
+                rep.count("ops_resolved_before_trigger");
+                continue;
+            }
+            let opname = o.name.clone();
+            match (o.resolved_ms, o.ok) {
+                (None, _) => {
+                    rep.violation(
+                        format!("C17.pending:{opname}:{tag}"),
+                        format!("{opname} (started at {} ms) still pending {} ms after {tag} at {} ms; terminated()={}", o.started_ms, run.eval_ms.saturating_sub(run.trigger_ms), run.trigger_ms, t0.text),
+                        rj.clone(),
+                    );
+                }
+                (Some(r), Some(true)) => {
+                    // an operation may legitimately complete between the trigger and the termination becoming
+                    // visible on this side (e.g. the peer closes, data already in flight)
+                    let term_ms = t0.resolved_ms.unwrap_or(u64::MAX);
+                    if o.later || r > term_ms {
+                        rep.violation(
+                            format!("C17.ok-after-termination:{}", opname.trim_start_matches(['C', 'S'])),
+                            format!("{opname} completed successfully at {r} ms after {side} had terminated at {term_ms} ms [{tag}]: {}", o.text),
+                            rj.clone(),
+                        );
+                    } else {
+                        rep.count("ops_completed_ok_before_termination_visible");
+                    }
+                }
+                (Some(_), _) => {
+                    rep.count(if o.later { "later_ops_failed_at_once" } else { "pending_ops_resolved_with_error" });
+                    rep.set("op_kinds_resolved", vcore::fnv_str(&format!("{}:{}", opname.trim_start_matches(['C', 'S']), case.trigger)));
+                    if let (Some(k), Some(tk)) = (&o.kind, &t0.kind) {
+                        if k != tk {
+                            rep.violation(
+                                format!("C17.wrong-error:{}:{}", opname.trim_start_matches(['C', 'S']), case.trigger),
+                                format!("{opname} failed with {k}, the connection's terminating error is {tk} [{tag}]: {}", o.text),
+                                rj.clone(),
+                            );
+                        }
+                    }
+                }
+            }
+        }
+    }
+    // qlog: state sequence only moves forward; no application data sent after closing
+    for vp in [VantagePointType::Client, VantagePointType::Server] {
+        let mut rank = 0u32;
+        let mut ended = false;
+        for (v, e) in run.events.iter().filter(|(v, _)| *v == vp) {
+            let _ = v;
+            let Ok(j) = serde_json::to_value(e) else { continue };
+            match j["name"].as_str() {
+                Some("quic:connection_state_updated") => {
+                    let new = j["data"]["new"].as_str().unwrap_or("");
+                    rep.count("state_updates_seen");
+                    if let Some(r) = state_rank(new) {
+                        if r <= rank {
+                            rep.violation(format!("C17.state.backwards:{new}"), format!("{vp:?} connection state went to {new} after a later state (rank {rank}) [{tag}]"), rj.clone());
+                        }
+                        rank = rank.max(r);
+                    }
+                    if matches!(new, "closing" | "draining" | "closed") {
+                        ended = true;
+                    }
+                }
+                Some("quic:packet_sent") if ended => {
+                    if let Some(frames) = j["data"]["frames"].as_array() {
+                        for f in frames {
+                            if matches!(f["frame_type"].as_str(), Some("stream" | "datagram")) {
+                                rep.violation(format!("C17.data-after-close:{}", f["frame_type"].as_str().unwrap()), format!("{vp:?} sent a {} frame after it entered closing/draining [{tag}]", f["frame_type"]), rj.clone());
+                            }
+                        }
+                    }
+                    rep.count("packets_sent_after_close_checked");
+                }
+                _ => {}
+            }
+        }
+    }
+}
+
+pub fn gen_case(rng: &mut Rng, seed: u64, idx: u64) -> Case {
+    let triggers = ["local-close", "peer-close", "both-close", "proto-error", "blackout", "idle"];
+    let trigger = triggers[(idx % 6) as usize];
+    let phase = match trigger {
+        "proto-error" | "idle" => "post",
+        _ => *rng.pick(&["pre", "mid", "post", "post"]),
+    };
+    let idles = [1000u64, 5000, 30_000, 0];
+    let (ic, is) = match trigger {
+        "idle" | "blackout" => (*rng.pick(&idles), *rng.pick(&idles)),
+        _ => (30_000, 30_000),
+    };
+    Case { seed, trigger: trigger.into(), phase: phase.into(), latency_ms: *rng.pick(&[1u64, 10, 40]), idle_client_ms: ic, idle_server_ms: is }
+}
+
+pub fn run(args: &Args, rep: &mut Report) {
+    rep.rule = "scenario = (trigger kind, phase, latency, idle timeouts) with ~22 operations pending on both sides; distinct = distinct (trigger, phase, latency, idle pair); \
+                non-trivial = at least one operation was pending at the trigger and resolved with an error afterwards"
+        .into();
+    if let Some(path) = args.get("replay") {
+        let v: Value = serde_json::from_str(&std::fs::read_to_string(path).unwrap()).unwrap();
+        let v = if v.get("replay").is_some() { v["replay"].clone() } else { v };
+        let case = Case::from_json(&v);
+        let run = run_case(&case);
+        if args.flag("dump") {
+            eprintln!("trigger at {} ms, eval at {} ms, completed {}", run.trigger_ms, run.eval_ms, run.completed);
+            for o in &run.ops {
+                eprintln!("  {:<22} start {:>6} resolved {:?} ok {:?} kind {:?} {}", o.name, o.started_ms, o.resolved_ms, o.ok, o.kind, o.text.chars().take(100).collect::<String>());
+            }
+        }
+        rep.evaluations += 1;
+        judge(rep, &case, &run);
+        return;
+    }
+    let thorough = args.get("tier") == Some("thorough");
+    let shard = args.u64("shard", 0);
+    let shards = args.u64("shards", 1);
+    let n = args.budget(if thorough { 120 } else { 12 });
+    let mut rng = Rng::new(args.seed() ^ 0xc17).fork(shard);
+    for i in 0..n {
+        let sseed = rng.next_u64();
+        let mut r = rng.fork(i);
+        let case = gen_case(&mut r, sseed, i * shards + shard);
+        let before = rep.get("pending_ops_resolved_with_error");
+        let run = run_case(&case);
+        rep.evaluations += 1;
+        judge(rep, &case, &run);
+        if rep.get("pending_ops_resolved_with_error") > before {
+            rep.distinct(vcore::fnv_str(&format!("{}{}{}{}{}", case.trigger, case.phase, case.latency_ms, case.idle_client_ms, case.idle_server_ms)));
+        }
+        rep.count(&format!("trigger_{}", case.trigger));
+        rep.count(&format!("phase_{}", case.phase));
+        if i < 2 {
+            rep.sample(json!({"case": case.to_json(), "trigger_ms": run.trigger_ms, "ops": run.ops.iter().map(|o| json!({"op": o.name, "resolved_ms": o.resolved_ms, "ok": o.ok, "kind": o.kind})).collect::<Vec<_>>()}));
+        }
+    }
 }
